@@ -246,9 +246,12 @@ class C06(Prop):
                 kind = rng.choice(kinds)
                 pred = lang.N(rng.choice(['geq', 'leq', 'gt', 'lt', 'eq', 'neq']), term, lang.C(rng.choice([0.0, 1.0, 2.0])))
                 other = lang.N(rng.choice(['geq', 'leq']), lang.V('z'), lang.C(rng.choice([0.0, 1.0])))
-                f = lang.N(rng.choice(['and', 'or', 'implies']), *rng.sample([pred, other], 2))
-                if rng.random() < 0.3 and not future:
-                    f = lang.N('once', f)
+                if rep % 3 < 2:
+                    f = pred              # the predicate alone: its value IS the output, nothing can absorb an override
+                else:
+                    f = lang.N(rng.choice(['and', 'or', 'implies']), *rng.sample([pred, other], 2))
+                    if rng.random() < 0.3 and not future:
+                        f = lang.N('once', f)
                 names = lang.variables(f)
                 io = dict((k, rng.choice(['input', 'output'])) for k in names)
                 sem = rng.choice(SEMS[1:])
@@ -259,7 +262,6 @@ class C06(Prop):
                     side = ('input', 'output')[rep % 3]
                     sem = rng.choice([side + '_robustness', side + '_vacuity'])
                     io = dict((k, side) for k in names)
-                    io['z'] = rng.choice(['input', 'output'])
                 case = {'formula': f, 'kind': kind, 'sem': sem, 'io': io, 'through': label}
                 if kind.startswith('dt'):
                     case['data'] = lang.gen_trace(rng, names, rng.randint(2, 10))
